@@ -16,7 +16,8 @@ Record orun := {
   or_tok : Z;
   or_ev : list (event Z);
   or_retries : Z;
-  or_pending : bool
+  or_pending : bool;
+  or_killed : bool       (* the kill was issued during this run *)
 }.
 
 Record tcase := {
@@ -25,6 +26,7 @@ Record tcase := {
   t_preLast : Z; t_preDepth : Z; t_preCount : Z;
   t_batch : Z; t_log : bool; t_rerun : bool; t_maxRetries : Z; t_retryDelay : Z;
   t_killAt : Z; t_adds : list Z; t_crons : Z; t_timer : bool;
+  t_burst : Z;           (* > 0: that many externally triggered runs while re-runs are pending; o_runs = [final state] *)
   (* observed *)
   o_outcome : Z;         (* 0 = the driver ran the case *)
   o_res : Z;             (* sink level: 0 nil | 1 MaxItemsExceededError | 2 other *)
@@ -32,7 +34,8 @@ Record tcase := {
   o_last : Z; o_lastSet : bool; o_depth : Z; o_count : Z; o_calls : Z;
   o_delay : Z;
   o_runs : list orun;
-  o_delayOk : bool
+  o_delayOk : bool;
+  o_starts : Z           (* burst: executions of the pipeline *)
 }.
 
 Definition ev_eqb (a b : event Z) : bool :=
@@ -83,7 +86,7 @@ Definition predict_job (v : eh_variant) (c : tcase) : list (runrec Z) :=
 
 Definition to_orun (m : runrec Z) : orun :=
   {| or_err := perr_code (r_err m); or_processed := Z.of_nat (r_processed m); or_tok := Z.of_nat (r_tok m);
-     or_ev := r_log m; or_retries := r_retries m; or_pending := r_pending m |}.
+     or_ev := r_log m; or_retries := r_retries m; or_pending := r_pending m; or_killed := r_killed m |}.
 
 Definition orun_eqb (m o : orun) : bool :=
   Z.eqb (or_err m) (or_err o)
@@ -91,15 +94,33 @@ Definition orun_eqb (m o : orun) : bool :=
   && Z.eqb (or_tok m) (or_tok o)
   && evlist_eqb (or_ev m) (or_ev o)
   && Z.eqb (or_retries m) (or_retries o)
-  && Bool.eqb (or_pending m) (or_pending o).
+  && Bool.eqb (or_pending m) (or_pending o)
+  && Bool.eqb (or_killed m) (or_killed o).
 
 Definition agree_job (v : eh_variant) (c : tcase) : bool :=
   list_eqb orun_eqb (map to_orun (predict_job v c)) (o_runs c)
   && Z.eqb (o_delay c) (if t_rerun c then eff_delay (t_retryDelay c) else 0)
   && o_delayOk c.
 
+(** burst: all externally triggered runs first, then the queued re-runs; compared: number of executions,
+    everything the sink and the handler saw, and the state after the last execution *)
+Definition predict_burst (v : eh_variant) (c : tcase) : list (runrec Z) :=
+  burst (inner_of c) v (cfg_of c) 60 (Z.to_nat (t_n c)) (Z.to_nat (t_burst c)) 0 (j_init (retries0 c)).
+
+Definition agree_burst (v : eh_variant) (c : tcase) : bool :=
+  let rs := predict_burst v c in
+  Z.eqb (o_starts c) (Z.of_nat (length rs))
+  && match rev rs, o_runs c with
+     | m :: _, [o] =>
+       Z.eqb (perr_code (r_err m)) (or_err o) && Z.eqb (Z.of_nat (r_processed m)) (or_processed o)
+       && Z.eqb (Z.of_nat (r_tok m)) (or_tok o) && Z.eqb (r_retries m) (or_retries o)
+       && evlist_eqb (flat_map (fun r => r_log r) rs) (or_ev o)
+     | _, _ => false
+     end.
+
 Definition agree (v : eh_variant) (c : tcase) : bool :=
-  Z.eqb (o_outcome c) 0 && (if t_job c then agree_job v c else agree_sink v c).
+  Z.eqb (o_outcome c) 0
+  && (if t_job c then (if 0 <? t_burst c then agree_burst v c else agree_job v c) else agree_sink v c).
 
 (** ** the executable spec S, on the implementation's observations only *)
 Definition is_bad (c : tcase) (x : Z) : bool := zmem x (t_bad c).
@@ -156,7 +177,11 @@ Definition spec_run (c : tcase) (tok n : nat) (o : orun) : bool :=
                  && (match bads with [] => Z.eqb (or_err o) (-1) | _ => 0 <=? or_err o end))
       else true)
   (* a re-run is only scheduled after a failure that is not a kill *)
-  && (if or_pending o then (t_rerun c) && negb (Z.eqb (or_err o) (-1)) && negb (Z.eqb (or_err o) (-3)) else true).
+  && (if or_pending o then (t_rerun c) && negb (Z.eqb (or_err o) (-1)) && negb (Z.eqb (or_err o) (-3)) else true)
+  (* with a log handler and no limit the wrapped sink never fails a page, so a kill issued during the run is
+     noticed at the next page: the run is recorded as interrupted and schedules no re-run *)
+  && (if or_killed o && t_log c && (Z.to_nat (t_maxItems c) =? 0)%nat
+      then Z.eqb (or_err o) (-3) && negb (or_pending o) else true).
 
 Fixpoint spec_runs (c : tcase) (tok n : nat) (adds : list nat) (rs : list orun) : bool :=
   match rs with
@@ -174,7 +199,14 @@ Definition spec_job (c : tcase) : bool :=
   && (Z.of_nat (count_pending (o_runs c)) <=? Z.max 0 (retries0 c))
   && (match rev (o_runs c) with o :: _ => negb (or_pending o) | [] => false end).
 
-Definition spec_ok (c : tcase) : bool := if t_job c then spec_job c else spec_sink c.
+(** burst: at most maxRetries re-executions on top of the externally triggered runs *)
+Definition spec_burst (c : tcase) : bool :=
+  Z.eqb (o_outcome c) 0
+  && (t_burst c <=? o_starts c)
+  && (o_starts c - t_burst c <=? Z.max 0 (retries0 c)).
+
+Definition spec_ok (c : tcase) : bool :=
+  if t_job c then (if 0 <? t_burst c then spec_burst c else spec_job c) else spec_sink c.
 
 (** [mismatches VCurrent; VResetClears; VFixed; spec failures on I] *)
 Definition evaluate (cs : list tcase) : list (list N) :=
